@@ -6,8 +6,8 @@ from ..core.mirror import canon, swap
 from ..core.model import dotted
 
 META = {
-    "technique": "mirror analysis: every guarded return of atom.intersects is compared with its self<->other swap modulo commutativity (statement either self-symmetric or paired with a mirror statement); after the normalising swap only the normalised names may be used and the both-ranged arm must be symmetric in them; operator-exhaustiveness of the dispatch against the valid_ops literal; glob-semantics agreement with the matcher",
-    "level": "Decides: (R1) intersects() is syntactically symmetric under swapping its operands (a necessary condition of order-independence: breaking the mirror of any one arm breaks symmetry for the operator pair that arm serves); (R2) every operator of valid_ops plus '=*' and '' is dispatched before the final NotImplementedError; (R3) the glob arms assume the same =* semantics that matching implements; (R4) the slot/sub-slot/repository/USE pre-checks compare like with like. Does NOT decide completeness or witnesses for concrete atoms.",
+    "technique": "mirror analysis: every guarded return of atom.intersects is compared with its self<->other swap modulo commutativity (statement either self-symmetric or paired with a mirror statement); after the normalising swap only the normalised names may be used and the both-ranged arm must be symmetric in them; operator-exhaustiveness of the dispatch against the valid_ops literal; glob-semantics agreement with the matcher; token-integrity rule (the USE tokens reach the conflict test unrewritten)",
+    "level": "Decides: (R1) intersects() is syntactically symmetric under swapping its operands (a necessary condition of order-independence: breaking the mirror of any one arm breaks symmetry for the operator pair that arm serves); (R2) every operator of valid_ops plus '=*' and '' is dispatched before the final NotImplementedError; (R3) the glob arms assume the same =* semantics that matching implements; (R4) the slot/sub-slot/repository/USE pre-checks compare like with like. Does NOT decide completeness or witnesses for concrete atoms. (R5) the USE conflict test compares the tokens as written, use-dep default markers included.",
     "note": "VersionMatch(...).match and str.startswith are opaque; symmetry is syntactic modulo and/or/==/^ commutativity",
 }
 
@@ -135,6 +135,18 @@ def run(ctx):
     ctx.check("R4", f, bool(unv) and A.unparse(unv[0].body[0]) == "return True", "unversioned-intersects", "an unversioned atom intersects any version constraint")
     ctx.floor("R4", 5)
 
+    # ---- R5 USE tokens reach the conflict test whole ------------------------------------------
+    uf = [st for st in A.body_walk(f.node) if isinstance(st, ast.Assign) and A.unparse(st.targets[0]) == "flags"]
+    ctx.require(len(uf) == 1, "atom.intersects: USE conflict set `flags` not found")
+    LOSSY = {"partition", "split", "rsplit", "rstrip", "strip", "replace", "sub", "removesuffix"}
+    lossy = [c for c in A.calls(uf[0].value) if A.call_attr(c) in LOSSY or (isinstance(c.func, ast.Attribute) and c.func.attr in LOSSY)]
+    srcs = {A.unparse(n) for n in A.walk(uf[0].value) if isinstance(n, ast.Attribute) and n.attr == "use"}
+    ctx.check("R5", f, not lossy and srcs == {f"{a}.use", f"{b}.use"}, f"use-tokens-whole:{A.unparse(lossy[0])[:40] if lossy else ''}", "the conflict test compares the USE tokens as written, default markers (+)/(-) included",
+              f"the USE tokens are rewritten (`{A.unparse(lossy[0])[:60] if lossy else '?'}`) before the conflict test: flag(+) and -flag(-) are then taken for opposite demands on one flag, although a package without the flag in IUSE satisfies both — intersecting atoms are reported disjoint", node=uf[0])
+    loop = [st for st in A.body_walk(f.node) if isinstance(st, ast.For) and A.unparse(st.iter) == "flags"]
+    ok = len(loop) == 1 and "flag[0] == '-' and flag[1:] in flags" in A.unparse(loop[0]) and "return False" in A.unparse(loop[0])
+    ctx.check("R5", f, ok, "conflict-is-same-token-both-signs", "a conflict is the same token demanded with and without '-'")
+    ctx.floor("R5", 2)
 
 MUTANTS = [
     {"name": "glob-exact-asymmetric", "file": "src/pkgcore/ebuild/atom.py", "old": "                return other.fullver.startswith(self.fullver)\n            return restricts.VersionMatch(self.op", "new": "                return other.fullver.startswith(self.version)\n            return restricts.VersionMatch(self.op", "rule": "R1"},
@@ -146,6 +158,9 @@ MUTANTS = [
 ]
 MUTANTS += [
     {"name": "tilde-fallback-narrowed", "file": "src/pkgcore/ebuild/atom.py", "old": 'return ranged.op in (">", ">=") and restricts.VersionMatch(', "new": 'return ranged.op == ">" and restricts.VersionMatch(', "rule": "R3"},
+]
+MUTANTS += [
+    {"name": "use-defaults-stripped", "file": "src/pkgcore/ebuild/atom.py", "old": "            flags = set(self.use) ^ set(other.use)", "new": "            flags = {x.partition(\"(\")[0] for x in self.use} ^ {x.partition(\"(\")[0] for x in other.use}", "rule": "R5"},
 ]
 TWINS = [
     {"name": "commuted-eq", "file": "src/pkgcore/ebuild/atom.py", "old": "        if self.key != other.key:\n            return False", "new": "        if other.key != self.key:\n            return False"},
